@@ -156,6 +156,8 @@ func vfConcExec[K Key](c *vfConcCase, mk func(i int) K, idxOf func(K) int) *vfCo
 	if c.HashMode != "default" {
 		conf.KeyToHash = func(k K) (uint64, uint64) { return vfConcHash(c.HashMode, idxOf(k)) }
 	}
+	t0 := time.Now()
+	period := time.Duration(c.TickerSecs) * time.Second / 2
 	cache, err := NewCache(conf)
 	if err != nil {
 		panic(err)
@@ -180,6 +182,9 @@ func vfConcExec[K Key](c *vfConcCase, mk func(i int) K, idxOf func(K) int) *vfCo
 			}
 			if op.Kind == "sleep" {
 				sleeps += time.Duration(op.N) * time.Millisecond
+			}
+			if op.Kind == "ticksync" {
+				sleeps += 2 * time.Second
 			}
 		}
 	}
@@ -244,6 +249,9 @@ func vfConcExec[K Key](c *vfConcCase, mk func(i int) K, idxOf func(K) int) *vfCo
 					}
 				case "sleep":
 					time.Sleep(time.Duration(op.N) * time.Millisecond)
+				case "ticksync":
+					// wake up at the very instant of the next expiry tick: what follows races with the sweep
+					time.Sleep(period - time.Since(t0)%period)
 				}
 				r.Res = clock.Add(1)
 				recs[g] = append(recs[g], r)
@@ -686,21 +694,22 @@ func vfConcRunTyped(c *vfConcCase) *vfConcHist {
 }
 
 type vfConcProfile struct {
-	id      string
-	collide bool
-	allOps  bool
-	w       map[string]int
+	ticksync int
+	id       string
+	collide  bool
+	allOps   bool
+	w        map[string]int
 }
 
 var vfConcProfiles = map[string]*vfConcProfile{
-	"C01": {id: "C01", collide: true, w: map[string]int{"get": 40, "set": 30, "del": 8, "iter": 2, "wait": 2, "clear": 3, "yield": 8, "sleep": 3}},
-	"C02": {id: "C02", w: map[string]int{"get": 42, "set": 32, "del": 10, "iter": 3, "wait": 2, "clear": 3, "yield": 8, "sleep": 2}},
-	"C04": {id: "C04", w: map[string]int{"get": 12, "set": 50, "del": 10, "wait": 3, "clear": 4, "yield": 8, "sleep": 3}},
+	"C01": {id: "C01", ticksync: 4, collide: true, w: map[string]int{"get": 40, "set": 30, "del": 8, "iter": 2, "wait": 2, "clear": 3, "yield": 8, "sleep": 3}},
+	"C02": {id: "C02", ticksync: 4, w: map[string]int{"get": 42, "set": 32, "del": 10, "iter": 3, "wait": 2, "clear": 3, "yield": 8, "sleep": 2}},
+	"C04": {id: "C04", ticksync: 4, w: map[string]int{"get": 12, "set": 50, "del": 10, "wait": 3, "clear": 4, "yield": 8, "sleep": 3}},
 	"C05": {id: "C05", w: map[string]int{"get": 25, "set": 30, "del": 15, "wait": 12, "yield": 8, "sleep": 2}},
-	"C07": {id: "C07", w: map[string]int{"get": 40, "set": 30, "del": 4, "getttl": 6, "iter": 4, "wait": 2, "yield": 4, "sleep": 10}},
-	"C08": {id: "C08", allOps: true, w: map[string]int{"get": 22, "set": 22, "del": 8, "getttl": 6, "iter": 4, "wait": 5, "clear": 3, "umc": 3, "maxcost": 3, "remaining": 4, "metrics": 4, "yield": 8, "sleep": 3}},
+	"C07": {id: "C07", ticksync: 4, w: map[string]int{"get": 40, "set": 30, "del": 4, "getttl": 6, "iter": 4, "wait": 2, "yield": 4, "sleep": 10}},
+	"C08": {id: "C08", ticksync: 4, allOps: true, w: map[string]int{"get": 22, "set": 22, "del": 8, "getttl": 6, "iter": 4, "wait": 5, "clear": 3, "umc": 3, "maxcost": 3, "remaining": 4, "metrics": 4, "yield": 8, "sleep": 3}},
 	"C03": {id: "C03", w: map[string]int{"get": 20, "set": 50, "del": 10, "wait": 3, "umc": 2, "yield": 8, "sleep": 2}},
-	"C13": {id: "C13", w: map[string]int{"get": 15, "set": 45, "del": 12, "iter": 4, "wait": 3, "clear": 1, "yield": 8, "sleep": 4}},
+	"C13": {id: "C13", ticksync: 4, w: map[string]int{"get": 15, "set": 45, "del": 12, "iter": 4, "wait": 3, "clear": 1, "yield": 8, "sleep": 4}},
 	"C17": {id: "C17", w: map[string]int{"get": 30, "set": 40, "del": 8, "wait": 3, "yield": 8, "sleep": 3}},
 }
 
@@ -737,12 +746,19 @@ func vfGenConcCase(t *rapid.T, p *vfConcProfile, maxG int) *vfConcCase {
 	g := rapid.IntRange(2, maxG).Draw(t, "goroutines")
 	var kinds []string
 	total := 0
-	for k := range p.w {
+	wts := map[string]int{}
+	for k, v := range p.w {
+		wts[k] = v
+	}
+	if p.ticksync > 0 {
+		wts["ticksync"] = p.ticksync
+	}
+	for k := range wts {
 		kinds = append(kinds, k)
 	}
 	sort.Strings(kinds)
 	for _, k := range kinds {
-		total += p.w[k]
+		total += wts[k]
 	}
 	owned := rapid.IntRange(0, 2).Draw(t, "ownedkeys") // the first 'owned' goroutines own one key each
 	allowClear := rapid.IntRange(0, 9).Draw(t, "allowclear") < 3
@@ -755,11 +771,11 @@ func vfGenConcCase(t *rapid.T, p *vfConcProfile, maxG int) *vfConcCase {
 			w := rapid.IntRange(0, total-1).Draw(t, "op")
 			kind := ""
 			for _, k := range kinds {
-				if w < p.w[k] {
+				if w < wts[k] {
 					kind = k
 					break
 				}
-				w -= p.w[k]
+				w -= wts[k]
 			}
 			if kind == "clear" {
 				if !allowClear || clearsLeft == 0 {
